@@ -896,7 +896,9 @@ def _build_campaign(family, tier, d):
             if x.get("include_path"):  # ("" names the directory itself: nothing to create)
                 # the included file must exist relative to the module for it to compile
                 ip = os.path.normpath(os.path.join(x["dir"], x["include_path"]))
-                if ip.startswith(d) and "\0" not in ip:
+                # (a newline in a file name makes cargo's own dep-info file unparsable)
+                if ip.startswith(d) and "\0" not in ip and "\n" not in ip and \
+                        x["include_path"].strip():
                     try:
                         os.makedirs(os.path.dirname(ip), exist_ok=True)
                         with open(ip, "w", newline="") as f:
@@ -904,6 +906,10 @@ def _build_campaign(family, tier, d):
                         x["include_file_in_place"] = True
                     except OSError:
                         pass
+            if x.get("include_path") is not None and not x.get("include_file_in_place"):
+                # include_str! of a path that cannot name a file next to the module: the text
+                # is still judged through the item inventory (C16), but not compiled
+                continue
             group = [(x["mod"], mp, "module", c.id, x["id"], "")]
             for pname, fn in PROBES[family]:
                 if x.get("matrix") and pname != "c09":
